@@ -252,8 +252,6 @@ func c14(r *Run) {
 	// ---- R3 timeout errors say so ------------------------------------------------------------------------
 	{
 		mapErr := w.MustFn("mapErr")
-		// which global does mapErr return for context.DeadlineExceeded?
-		var glob *ssa.Global
 		isDeadline := func(v ssa.Value) (bool, bool) {
 			b, ok := v.(*ssa.BinOp)
 			if !ok || b.Op != token.EQL {
@@ -270,65 +268,19 @@ func c14(r *Run) {
 		}
 		starts := edgesEstablishing(mapErr, isDeadline)
 		ss := &Search{Fn: mapErr}
-		for _, ret := range ss.Reachable(starts, func(i ssa.Instruction) bool { _, ok := i.(*ssa.Return); return ok }) {
-			if u, ok := ret.(*ssa.Return).Results[0].(*ssa.UnOp); ok && u.Op == token.MUL {
-				if g, ok := u.X.(*ssa.Global); ok {
-					glob = g
+		rets := ss.Reachable(starts, func(i ssa.Instruction) bool { _, ok := i.(*ssa.Return); return ok })
+		ok := len(rets) > 0
+		detail := "no return on the DeadlineExceeded branch"
+		for _, ret := range rets {
+			for _, v := range resultValues(ret.(*ssa.Return), 0) {
+				o, d := timeoutCapable(w, v, 0)
+				detail = d
+				if !o {
+					ok = false
 				}
 			}
 		}
-		if glob == nil {
-			r.ob("C14.R3:dial-timeout-error-has-Timeout", "mapErr maps context.DeadlineExceeded to a package-level error value", mapErr, nil, false, "no global returned for DeadlineExceeded", true)
-		} else {
-			// find its initialiser in package init
-			var dyn types.Type
-			initFn := w.Main.Func("init")
-			forEachIns(initFn, func(i ssa.Instruction) {
-				if st, ok := i.(*ssa.Store); ok && st.Addr == ssa.Value(glob) {
-					v := st.Val
-					for {
-						switch x := v.(type) {
-						case *ssa.MakeInterface:
-							dyn = x.X.Type()
-							v = nil
-						case *ssa.ChangeInterface:
-							v = x.X
-							continue
-						case *ssa.Call:
-							// errors.New(...) and friends
-							if x.Call.StaticCallee() != nil && x.Call.StaticCallee().Pkg != nil {
-								res := x.Call.StaticCallee()
-								dyn = resultDynType(res)
-							}
-							v = nil
-						}
-						break
-					}
-				}
-			})
-			ok := false
-			detail := "dynamic type unknown"
-			if dyn != nil {
-				detail = "dynamic type " + dyn.String()
-				ms := w.Prog.MethodSets.MethodSet(dyn)
-				for i := 0; i < ms.Len(); i++ {
-					m := ms.At(i)
-					if m.Obj().Name() == "Timeout" {
-						if f := w.Prog.MethodValue(m); f != nil && f.Blocks != nil {
-							// can return true
-							forEachIns(f, func(i ssa.Instruction) {
-								if ret, isRet := i.(*ssa.Return); isRet && len(ret.Results) == 1 {
-									if k, okc := constInt(ret.Results[0]); okc && k == 1 {
-										ok = true
-									}
-								}
-							})
-						}
-					}
-				}
-			}
-			r.ob("C14.R3:dial-timeout-error-has-Timeout", "the error a timed-out dial returns (context.DeadlineExceeded mapped by mapErr, wrapped in *net.OpError which forwards Timeout()) has a Timeout() method that returns true", mapErr, nil, ok, detail, true)
-		}
+		r.ob("C14.R3:dial-timeout-error-has-Timeout", "the error a timed-out dial returns (context.DeadlineExceeded mapped by mapErr, wrapped in *net.OpError which forwards Timeout()) has a Timeout() method that can return true", mapErr, nil, ok, detail, true)
 		// every ctx.Err() on the dial path goes through mapErr
 		for _, name := range []string{"(*netFD).connect", "(*pollDesc).WaitWrite", "(*netFD).dial"} {
 			fn := w.MustFn(name)
@@ -365,4 +317,94 @@ func resultDynType(f *ssa.Function) types.Type {
 		return f.Signature.Results().At(0).Type()
 	}
 	return nil
+}
+
+// timeoutCapable: the error value has a dynamic type whose Timeout() method can return true.
+func timeoutCapable(w *World, v ssa.Value, depth int) (bool, string) {
+	if depth > 6 {
+		return false, "too deep"
+	}
+	switch x := v.(type) {
+	case *ssa.Phi:
+		for _, e := range x.Edges {
+			if ok, d := timeoutCapable(w, e, depth+1); !ok {
+				return false, d
+			}
+		}
+		return true, "all alternatives report Timeout()"
+	case *ssa.ChangeInterface:
+		return timeoutCapable(w, x.X, depth+1)
+	case *ssa.UnOp:
+		if x.Op != token.MUL {
+			break
+		}
+		g, ok := x.X.(*ssa.Global)
+		if !ok {
+			break
+		}
+		if !isModulePkg(g.Pkg.Pkg) {
+			switch g.Pkg.Pkg.Path() + "." + g.Name() {
+			case "os.ErrDeadlineExceeded", "context.DeadlineExceeded":
+				return true, "standard deadline error " + g.Pkg.Pkg.Path() + "." + g.Name() + " (Timeout() == true)"
+			}
+			return false, "external value " + g.Pkg.Pkg.Path() + "." + g.Name() + " is not known to report Timeout()"
+		}
+		initFn := g.Pkg.Func("init")
+		var res *bool
+		detail := "global " + g.Name() + " has no initialiser"
+		forEachIns(initFn, func(i ssa.Instruction) {
+			if st, ok := i.(*ssa.Store); ok && st.Addr == ssa.Value(g) {
+				o, d := timeoutCapable(w, st.Val, depth+1)
+				res, detail = &o, g.Name()+" = "+d
+			}
+		})
+		if res != nil {
+			return *res, detail
+		}
+		return false, detail
+	case *ssa.MakeInterface:
+		t := x.X.Type()
+		ms := w.Prog.MethodSets.MethodSet(t)
+		for i := 0; i < ms.Len(); i++ {
+			m := ms.At(i)
+			if m.Obj().Name() != "Timeout" {
+				continue
+			}
+			f := w.Prog.MethodValue(m)
+			if f == nil || f.Blocks == nil {
+				return true, "dynamic type " + t.String() + " has Timeout() (body not in the module)"
+			}
+			// errno constants converted to our exception / syscall.Errno
+			canTrue := false
+			forEachIns(f, func(i ssa.Instruction) {
+				if ret, isRet := i.(*ssa.Return); isRet && len(ret.Results) == 1 {
+					if k, okc := constInt(ret.Results[0]); !okc || k == 1 {
+						canTrue = true
+					}
+				}
+			})
+			return canTrue, "dynamic type " + t.String() + ", Timeout() can return true = " + boolStr(canTrue)
+		}
+		return false, "dynamic type " + t.String() + " has no Timeout() method"
+	case *ssa.Call:
+		if n, ok := exceptionErrno(w, x); ok {
+			for _, name := range []string{"ErrDialTimeout", "ErrReadTimeout", "ErrWriteTimeout"} {
+				if n == w.ConstInt(name) {
+					return true, "Exception(" + name + ")"
+				}
+			}
+			return false, "Exception of a non-timeout errno"
+		}
+		if c := x.Call.StaticCallee(); c != nil {
+			return false, "result of " + c.String() + " (no Timeout() known)"
+		}
+	}
+	return false, "value " + stablePath(v) + " of unknown dynamic type"
+}
+
+func boolStr(b bool) string {
+	if b {
+		return "true"
+	}
+	return "false"
 }
